@@ -146,6 +146,7 @@ def run(repo, rep, tier):
     mgr = repo.cls(SM, 'WBEMSubscriptionManager')
     recursion_forwards_parameters(repo, rep)
     owned_only_after_create(repo, rep)
+    values_compared_exactly(repo, rep)
 
     # ---- R1 ---------------------------------------------------------------
     sites = pattern_sites(repo, SM)
@@ -734,3 +735,75 @@ def owned_only_after_create(repo, rep):
                             'permanent, or owned by another manager - is '
                             'adopted as owned and later deleted by '
                             'remove_server() / context manager exit')
+
+
+_FOLDS = ('lower', 'upper', 'casefold', 'strip', 'lstrip', 'rstrip', 'title',
+          'capitalize', 'swapcase')
+
+
+def _is_value_expr(e):
+    """the expression reads a property / key *value* of an instance or
+    path: x.value, x['Name'], x.keybindings['Name'], x.properties[...]"""
+    if isinstance(e, ast.Attribute) and e.attr == 'value':
+        return True
+    if isinstance(e, ast.Subscript) and \
+            isinstance(e.slice, ast.Constant) and \
+            isinstance(e.slice.value, str):
+        return True
+    return False
+
+
+def folded_value_operands(cmp_):
+    out = []
+    for op in [cmp_.left] + list(cmp_.comparators):
+        if isinstance(op, ast.Call) and isinstance(op.func, ast.Attribute) \
+                and op.func.attr in _FOLDS and not op.args and \
+                _is_value_expr(op.func.value):
+            out.append(op)
+    return out
+
+
+def values_compared_exactly(repo, rep):
+    """C18.R10: property and key values of filter / destination /
+    subscription instances are compared as they are.  The Name of a filter
+    or destination is a case-sensitive string key: two instances whose
+    Names differ only in case (or in surrounding blanks) are different
+    objects on the server.  A comparison that folds a value first treats
+    them as one - add_filter() refuses a new filter as a duplicate of
+    another one, ownership and existence tests hit the wrong instance.
+    (CIM *names* - class names, property names - are case-insensitive and
+    are not values; they are not covered by this rule.)"""
+    r10 = rep.rule('C18.R10', 'instance property / key values are compared '
+                   'without case folding or stripping')
+    m = repo.module(SM)
+    n = 0
+    for f in m.all_funcs():
+        for c in walk_no_nested(f.node):
+            if not isinstance(c, ast.Compare):
+                continue
+            if not any(_is_value_expr(x) or
+                       (isinstance(x, ast.Call) and
+                        isinstance(x.func, ast.Attribute) and
+                        _is_value_expr(x.func.value))
+                       for x in [c.left] + list(c.comparators)):
+                continue
+            n += 1
+            r10.sites += 1
+            r10.functions.add(f.fq)
+            bad = folded_value_operands(c)
+            r10.ob(not bad, '%s|%s' % (f.qualname, norm(c, 60)))
+            for op in bad[:1]:
+                rep.finding(r10, f.qualname, norm(c, 70), 'value-folded',
+                            SM, c.lineno,
+                            'the value %s is %s-folded before it is '
+                            'compared: instances whose values differ only '
+                            'in case / surrounding blanks (distinct objects '
+                            'on the server, string keys are case-sensitive) '
+                            'are treated as the same'
+                            % (norm(op.func.value, 40), op.func.attr))
+    if n < 3:
+        raise AnalysisError('C18.R10: only %d value comparisons found in the '
+                            'subscription manager' % n)
+    probe = ast.parse("a.value.lower() == b.lower()").body[0].value
+    if not folded_value_operands(probe):
+        raise AnalysisError('C18.R10 recogniser broken')
